@@ -29,7 +29,7 @@ def model_checks(ctx):
         r = vlib.run_tlc(ctx, FAM, mod, mod + ".cfg")
         ctx.add_tlc(r)
     for mod, defects in (("XStreamConn", ("NoDelete", "ResetKeepsEntry", "ArrivalOrder")),
-                         ("XHop", ("HijackIdFromFrame", "NoDelete", "ArrivalOrder"))):
+                         ("XHop", ("HijackIdFromFrame", "NoDelete", "ArrivalOrder", "RecycleWhileReferenced"))):
         for d in defects:
             cfg = "%s_defect_%s.cfg" % (mod, d)
             if vlib.run_tlc(ctx, FAM, mod, cfg, expect_ok=False)["ok"]:
@@ -54,7 +54,7 @@ def features(case):
             f.add("tmo"); late.add(s["r"])
         if s["op"] == "ans" and s["r"] in late:
             f.add("late")
-        if s["op"] in ("dup", "ghost", "close"):
+        if s["op"] in ("dup", "ghost", "close", "race"):
             f.add(s["op"])
     return f
 
@@ -120,7 +120,7 @@ def run(ctx):
         # every schedule in which a colliding id meets a proxy-made error reply or a late/duplicate answer, plus a VERIF_SEED sample
         def core(c):
             f = features(c)
-            return "collision" in f and ("late" in f or "dup" in f) and "tmo" in f
+            return ("collision" in f and ("late" in f or "dup" in f) and "tmo" in f) or "race" in f
         keep = [c for c in hall if core(c)]
         rest = [c for c in hall if not core(c)]
         if len(keep) > 1500:
@@ -166,7 +166,7 @@ def run(ctx):
                 sig = "C02:%s:%s" % (part, f["kind"])
             vlib.report_failure(ctx, sig, f)
 
-    summ = [r for r in hres + sres if r.get("summary")]
+    summ = [r for r in hres + sres + pres if r.get("summary")]
     skipped = sum(r.get("skipped", 0) for r in summ)
     lost = sum(r.get("lost", 0) for r in summ)
     runs = [r for r in hres if not r.get("summary")]
@@ -174,7 +174,7 @@ def run(ctx):
     coll = sum(r.get("collisions", 0) for r in runs)
     div = sum(1 for r in runs if r.get("diverged", 0))
     ctx.cov["hop"] = dict(schedules_enumerated=len(hall), schedules_run=len(runs), id_collisions_realised=coll,
-                          schedules_with_unrealisable_step=div, skipped_after_lost_waits=skipped, lost_waits=lost)
+                          schedules_with_unrealisable_step=div, response_vs_timeout_races_forced=sum(r.get("races", 0) for r in runs), skipped_after_lost_waits=skipped, lost_waits=lost)
     ctx.cov["storm"] = dict(rounds=len(storms), requests=sum(r.get("requests", 0) for r in storms),
                             error_replies=sum(r.get("errors", 0) for r in storms),
                             id_collisions=sum(r.get("collisions", 0) for r in storms), upstream_closes=sum(r.get("closed", 0) for r in storms))
@@ -188,10 +188,12 @@ def run(ctx):
     ctx.cov["exhaustive"] = not q
     ctx.cov["rule"] = ("table: every history of <=%d ops (new/resp for any waiter's latest id/ghost id/reset/connreset) over 3 waiters, id counter "
                        "seeded at 2^32-2, replayed into the real bolt client stream connection; hop: every schedule of 6 steps over 3 requests "
-                       "on <=2 downstream connections (send with fresh or colliding id and long or short timeout / ans / dup / ghost / tmo / close) "
+                       "on <=2 downstream connections (send with fresh or colliding id and long or short timeout / ans / dup / ghost / tmo / race = answer held in its handler while the timeout ends the request / close) "
                        "from XHop.tla (%d), quick = collision+timeout+late/dup core plus a VERIF_SEED sample; storm: VERIF_SEED-randomised "
                        "pipelined clients on shared connections; h1: sequential HTTP/1.1 clients over pooled ping-pong upstream connections, 30%% of the "
                        "requests time out in the proxy before the upstream answers" % (5 if q else 6, len(hall)))
+    if any(r.get("warm_failed") for r in summ) and not ctx.violations and not ctx.known_hits:
+        raise vlib.Inconclusive("no request got through the proxy in the warm-up of a driver, and no mismatch was recorded")
     if skipped and not ctx.violations and not ctx.known_hits:
         raise vlib.Inconclusive("drivers skipped %d schedules after %d lost waits although no mismatch was found" % (skipped, lost))
     if runs and div * 2 > len(runs):
